@@ -3,7 +3,7 @@
    ISA specification Isa/X86.v, for ALL values.  The per-encoding breadth part is the in-kernel differential
    check of Isa/C01Check.v (processor + specification as oracles). *)
 From Coq Require Import ZArith List Bool NArith.
-From Falcon Require Import Base.Res IL.Const IL.ConstSpec IL.Expr IL.Func Exec.Sem Isa.X86 Isa.X86Lift Isa.X86Proofs.
+From Falcon Require Import Base.Res IL.Const IL.ConstSpec IL.Expr IL.Func Exec.Sem Isa.X86 Isa.X86Lift Isa.X86Proofs Isa.X86Sim Isa.C01Check Isa.X86Tie.
 Import ListNotations.
 Local Open Scope Z_scope.
 
@@ -95,10 +95,10 @@ Theorem lift_mov_reg_reg_correct : forall m sz dst src en nd ns sd ss xd xs,
 Proof. exact X86Proofs.lift_mov_reg_reg_correct. Qed.
 Print Assumptions lift_mov_reg_reg_correct.
 
-(* 4. add with a register destination (any sub-register kind, both modes) and a register/immediate source:
-      the seven operations the builder emits (temporary, ZF, SF, OF, CF, destination write), executed in
-      sequence by Sem.exec_op from ANY state, leave the architectural result and flags of X86.alu AAdd.
-      The operation list is the one of [X86Mirror.lift_alu AAdd], tied syntactically to the lifter every run. *)
+(* 4.-6. the mirrored builders at the level of the emitted operation list (register destination of any
+      sub-register kind, both modes; source = register or immediate operand expression): the operations run in
+      sequence by Sem.exec_op from ANY IL state leave the architectural result and flags of X86.alu / X86.un,
+      touch nothing else (frame), are all assignments, and memory is unchanged. *)
 Theorem add_reg_ops_correct : forall st m sz dst nd sd xd lhs rhs b,
   operand_shape m sz dst = Some (nd, sd) -> reg_name_ok nd = true -> width_ok sz ->
   0 <= xd < 2 ^ wordsz m -> env_get (st_env st) (nd, None) = Some (mkc (wordsz m) xd) ->
@@ -112,7 +112,11 @@ Theorem add_reg_ops_correct : forall st m sz dst nd sd xd lhs rhs b,
      of <- set_of (EScalar (X86Mirror.temp_k 0 sz)) lhs rhs false ;; c <- mk_bin Cmpltu (EScalar (X86Mirror.temp_k 0 sz)) lhs ;;
      s <- X86Mirror.ops_store m sz dst (EScalar (X86Mirror.temp_k 0 sz)) ;;
      Ok ([OAssign (X86Mirror.temp_k 0 sz) e; zf; sf; of; X86Mirror.assign_flag X86Lift.n_CF c] ++ s)) = Ok ops /\
+    forallb is_assign ops = true /\
+    (0 < length ops <= 16)%nat /\
     exec_ops st ops = Ok st' /\
+    (forall k, k <> (nd, None) -> k <> kT0 -> k <> kZF -> k <> kSF -> k <> kOF -> k <> kCF ->
+       env_get (st_env st') k = env_get (st_env st) k) /\
     st_mem st' = st_mem st /\
     env_get (st_env st') (nd, None) = Some (mkc (wordsz m) (arch_write sd (wordsz m) xd r)) /\
     env_get (st_env st') kZF = Some (mkc 1 (X86.b2z (r =? 0))) /\
@@ -122,7 +126,6 @@ Theorem add_reg_ops_correct : forall st m sz dst nd sd xd lhs rhs b,
 Proof. exact X86Proofs.add_reg_ops_correct. Qed.
 Print Assumptions add_reg_ops_correct.
 
-(* 5. the same for sub, cmp and the logic group and/or/xor (register destination, register/immediate source) *)
 Theorem sub_reg_ops_correct : forall st m sz dst nd sd xd lhs rhs b,
   operand_shape m sz dst = Some (nd, sd) -> reg_name_ok nd = true -> width_ok sz ->
   0 <= xd < 2 ^ wordsz m -> env_get (st_env st) (nd, None) = Some (mkc (wordsz m) xd) ->
@@ -136,7 +139,11 @@ Theorem sub_reg_ops_correct : forall st m sz dst nd sd xd lhs rhs b,
      of <- set_of (EScalar (X86Mirror.temp_k 0 sz)) lhs rhs true ;; c <- set_cf (EScalar (X86Mirror.temp_k 0 sz)) lhs ;;
      s <- X86Mirror.ops_store m sz dst (EScalar (X86Mirror.temp_k 0 sz)) ;;
      Ok ([OAssign (X86Mirror.temp_k 0 sz) e; zf; sf; of; c] ++ s)) = Ok ops /\
+    forallb is_assign ops = true /\
+    (0 < length ops <= 16)%nat /\
     exec_ops st ops = Ok st' /\
+    (forall k, k <> (nd, None) -> k <> kT0 -> k <> kZF -> k <> kSF -> k <> kOF -> k <> kCF ->
+       env_get (st_env st') k = env_get (st_env st) k) /\
     st_mem st' = st_mem st /\
     env_get (st_env st') (nd, None) = Some (mkc (wordsz m) (arch_write sd (wordsz m) xd r)) /\
     env_get (st_env st') kZF = Some (mkc 1 (X86.b2z (r =? 0))) /\
@@ -145,6 +152,7 @@ Theorem sub_reg_ops_correct : forall st m sz dst nd sd xd lhs rhs b,
     env_get (st_env st') kCF = Some (mkc 1 (X86.b2z (a <? b))).
 Proof. exact X86Proofs.sub_reg_ops_correct. Qed.
 Print Assumptions sub_reg_ops_correct.
+
 Theorem cmp_reg_ops_correct : forall st m sz dst nd sd xd lhs rhs b,
   operand_shape m sz dst = Some (nd, sd) -> reg_name_ok nd = true -> width_ok sz ->
   0 <= xd < 2 ^ wordsz m -> env_get (st_env st) (nd, None) = Some (mkc (wordsz m) xd) ->
@@ -156,7 +164,11 @@ Theorem cmp_reg_ops_correct : forall st m sz dst nd sd xd lhs rhs b,
     X86Mirror.lift_alu m ACmp sz dst (OImm 0) <> None /\
     (e <- mk_bin Sub lhs rhs ;; zf <- set_zf e ;; sf <- set_sf e ;; of <- set_of e lhs rhs true ;; cf <- set_cf e lhs ;;
      Ok [zf; sf; of; cf]) = Ok ops /\
+    forallb is_assign ops = true /\
+    (0 < length ops <= 16)%nat /\
     exec_ops st ops = Ok st' /\
+    (forall k, k <> (nd, None) -> k <> kT0 -> k <> kZF -> k <> kSF -> k <> kOF -> k <> kCF ->
+       env_get (st_env st') k = env_get (st_env st) k) /\
     st_mem st' = st_mem st /\
     env_get (st_env st') (nd, None) = Some (mkc (wordsz m) xd) /\
     env_get (st_env st') kZF = Some (mkc 1 (X86.b2z (r =? 0))) /\
@@ -165,6 +177,7 @@ Theorem cmp_reg_ops_correct : forall st m sz dst nd sd xd lhs rhs b,
     env_get (st_env st') kCF = Some (mkc 1 (X86.b2z (a <? b))).
 Proof. exact X86Proofs.cmp_reg_ops_correct. Qed.
 Print Assumptions cmp_reg_ops_correct.
+
 Theorem logic_reg_ops_correct : forall st m op f sz dst nd sd xd lhs rhs b,
   logic_fun op = Some f ->
   operand_shape m sz dst = Some (nd, sd) -> reg_name_ok nd = true -> width_ok sz ->
@@ -177,7 +190,11 @@ Theorem logic_reg_ops_correct : forall st m op f sz dst nd sd xd lhs rhs b,
     (e <- mk_bin op lhs rhs ;; zf <- set_zf (EScalar (X86Mirror.temp_k 0 sz)) ;; sf <- set_sf (EScalar (X86Mirror.temp_k 0 sz)) ;;
      s <- X86Mirror.ops_store m sz dst (EScalar (X86Mirror.temp_k 0 sz)) ;;
      Ok ([OAssign (X86Mirror.temp_k 0 sz) e; zf; sf; X86Mirror.assign_flag X86Lift.n_CF (expr_const 0 1); X86Mirror.assign_flag X86Lift.n_OF (expr_const 0 1)] ++ s)) = Ok ops /\
+    forallb is_assign ops = true /\
+    (0 < length ops <= 16)%nat /\
     exec_ops st ops = Ok st' /\
+    (forall k, k <> (nd, None) -> k <> kT0 -> k <> kZF -> k <> kSF -> k <> kOF -> k <> kCF ->
+       env_get (st_env st') k = env_get (st_env st) k) /\
     st_mem st' = st_mem st /\
     env_get (st_env st') (nd, None) = Some (mkc (wordsz m) (arch_write sd (wordsz m) xd r)) /\
     env_get (st_env st') kZF = Some (mkc 1 (X86.b2z (r =? 0))) /\
@@ -187,7 +204,6 @@ Theorem logic_reg_ops_correct : forall st m op f sz dst nd sd xd lhs rhs b,
 Proof. exact X86Proofs.logic_reg_ops_correct. Qed.
 Print Assumptions logic_reg_ops_correct.
 
-(* 6. inc / dec with a register destination *)
 Theorem incdec_reg_ops_correct : forall st m (sub : bool) sz dst nd sd xd lhs,
   operand_shape m sz dst = Some (nd, sd) -> reg_name_ok nd = true -> width_ok sz ->
   0 <= xd < 2 ^ wordsz m -> env_get (st_env st) (nd, None) = Some (mkc (wordsz m) xd) ->
@@ -200,7 +216,11 @@ Theorem incdec_reg_ops_correct : forall st m (sub : bool) sz dst nd sd xd lhs,
     (e <- mk_bin op lhs (expr_const 1 (e_bits lhs)) ;;
      zf <- set_zf e ;; sf <- set_sf e ;; of <- set_of e lhs (expr_const 1 (e_bits lhs)) sub ;;
      s <- X86Mirror.ops_store m sz dst e ;; Ok ([zf; sf; of] ++ s)) = Ok ops /\
+    forallb is_assign ops = true /\
+    (0 < length ops <= 16)%nat /\
     exec_ops st ops = Ok st' /\
+    (forall k, k <> (nd, None) -> k <> kT0 -> k <> kZF -> k <> kSF -> k <> kOF -> k <> kCF ->
+       env_get (st_env st') k = env_get (st_env st) k) /\
     st_mem st' = st_mem st /\
     env_get (st_env st') (nd, None) = Some (mkc (wordsz m) (arch_write sd (wordsz m) xd r)) /\
     env_get (st_env st') kZF = Some (mkc 1 (X86.b2z (r =? 0))) /\
@@ -222,3 +242,82 @@ Theorem il_run_one_block : forall addr ops,
     = X86Run.ILFin st' None.
 Proof. exact X86Proofs.il_run_one_block. Qed.
 Print Assumptions il_run_one_block.
+
+(* 8. THE PACKAGED STATEMENT against the specification.  [sim m addr len i]: for every well-formed machine state s
+      and EVERY IL state st that embeds it (registers, CF/ZF/SF/OF/DF, memory; temporaries and PF free), if
+      X86.step m (addr+len) i s = XNext s' ip then the mirrored builder accepts i and X86Run.run_instr on its graph
+      ends in an IL state that embeds s' (all GPRs, the flags the spec defines, memory) at next address ip. *)
+Theorem add_sim : forall m addr len sz dst src,
+  reg_operand_ok m sz dst -> src_operand_ok m sz src -> width_ok sz -> sim m addr len (IAlu AAdd sz dst src).
+Proof. exact X86Sim.add_sim. Qed.
+Print Assumptions add_sim.
+Theorem sub_sim : forall m addr len sz dst src,
+  reg_operand_ok m sz dst -> src_operand_ok m sz src -> width_ok sz -> sim m addr len (IAlu ASub sz dst src).
+Proof. exact X86Sim.sub_sim. Qed.
+Print Assumptions sub_sim.
+Theorem cmp_sim : forall m addr len sz dst src,
+  reg_operand_ok m sz dst -> src_operand_ok m sz src -> width_ok sz -> sim m addr len (IAlu ACmp sz dst src).
+Proof. exact X86Sim.cmp_sim. Qed.
+Print Assumptions cmp_sim.
+Theorem logic_sim : forall m addr len o op f sz dst src,
+  logic_alu o = Some (op, f) ->
+  reg_operand_ok m sz dst -> src_operand_ok m sz src -> width_ok sz ->
+  (o = AXor -> forall lhs rhs, X86Mirror.opv m sz dst = Ok lhs -> X86Mirror.opv m sz src = Ok rhs -> expr_eqb lhs rhs = false) ->
+  sim m addr len (IAlu o sz dst src).
+Proof. exact X86Sim.logic_sim. Qed.
+Print Assumptions logic_sim.
+Theorem incdec_sim : forall m addr len (sub : bool) sz dst,
+  reg_operand_ok m sz dst -> width_ok sz -> sim m addr len (IUn (if sub then UDec else UInc) sz dst).
+Proof. exact X86Sim.incdec_sim. Qed.
+Print Assumptions incdec_sim.
+Theorem mov_sim : forall m addr len sz dst src,
+  reg_operand_ok m sz dst -> src_operand_ok m sz src -> sim m addr len (IMov sz dst src).
+Proof. exact X86Sim.mov_sim. Qed.
+Print Assumptions mov_sim.
+
+(* 9. the syntactic tie transfers a sim theorem to the REAL lifter's dumped IL for an enumerated encoding, for
+      all states; [syntactic_tie] is what the tie component of the checker evaluates for mirrored cases *)
+Theorem tie_transfers : forall m addr len i g succ,
+  syntactic_tie m addr len i g succ = true -> sim m addr len i ->
+  forall s st s' ip, wf m s -> emb m s st -> step m (addr + len) i s = XNext s' ip ->
+    exists st', X86Run.run_instr 600 g succ addr st = X86Run.RunOk st' (Some ip) /\ emb m s' st' /\ wf m s'.
+Proof. exact X86Tie.tie_transfers. Qed.
+Print Assumptions tie_transfers.
+Theorem ck_tie_is_syntactic_tie : forall c g succ,
+  tc_lift c = LOk g succ -> tc_mirror c = X86Mirror.mirror_instr (tc_mode c) (tc_addr c) (tc_ins c) ->
+  (exists r, tc_mirror c = Some r) -> fst (ck c) = true ->
+  syntactic_tie (tc_mode c) (tc_addr c) (tc_len c) (tc_ins c) g succ = true.
+Proof. exact X86Tie.ck_tie_is_syntactic_tie. Qed.
+Print Assumptions ck_tie_is_syntactic_tie.
+
+(* 10. condition codes: Semantics::cc_condition denotes the architectural predicate X86.cond, all 16 codes *)
+Theorem cc_condition_correct : forall en c (cf pf zf sf of : bool),
+  env_get en kCF = Some (mkc 1 (X86.b2z cf)) -> env_get en kPF = Some (mkc 1 (X86.b2z pf)) ->
+  env_get en kZF = Some (mkc 1 (X86.b2z zf)) -> env_get en kSF = Some (mkc 1 (X86.b2z sf)) ->
+  env_get en kOF = Some (mkc 1 (X86.b2z of)) ->
+  exists e b, X86Mirror.cc_condition c = Ok e /\ e_bits e = 1 /\
+              cond c (flags_of_bools cf pf zf sf of) = Some b /\ den en e = Ok (mkc 1 (X86.b2z b)).
+Proof. exact X86Sim.cc_condition_correct. Qed.
+Print Assumptions cc_condition_correct.
+Theorem setcc_sim : forall m addr len c dst,
+  reg_operand_ok m 8 dst -> cc_no_pf c = true -> sim m addr len (ISetcc c dst).
+Proof. exact X86Sim.setcc_sim. Qed.
+Print Assumptions setcc_sim.
+(* 11. movzx / movsx / movsxd with a register source *)
+Theorem movx_sim : forall m addr len (sg : bool) dsz ssz dst src,
+  reg_operand_ok m dsz (OReg dst) -> reg_operand_ok m ssz src -> width_ok dsz -> width_ok ssz -> ssz < dsz ->
+  sim m addr len (IMovx sg dsz ssz dst src).
+Proof. exact X86Sim.movx_sim. Qed.
+Print Assumptions movx_sim.
+(* 12. effective addresses: Mode::operand_value on [base + index*scale + disp] denotes X86.ea at every address
+       size (16/32 in x86 mode, 32/64 in amd64 mode: the sum WRAPS at the address size, then is zero-extended),
+       and lea *)
+Theorem addr_expr_correct : forall m o s st, wf m s -> emb m s st -> mem_operand_ok m o ->
+  exists e, X86Mirror.addr_expr m o = Some (Ok e) /\ e_bits e = wordsz m /\
+            den (st_env st) e = Ok (mkc (wordsz m) (ea (x_gpr s) o)).
+Proof. exact X86Sim.addr_expr_correct. Qed.
+Print Assumptions addr_expr_correct.
+Theorem lea_sim : forall m addr len sz dst src,
+  reg_operand_ok m sz (OReg dst) -> width_ok sz -> mem_operand_ok m src -> sim m addr len (ILea sz dst src).
+Proof. exact X86Sim.lea_sim. Qed.
+Print Assumptions lea_sim.
